@@ -18,6 +18,11 @@ THEOREMS = [
     "CrCube.C02.numeric_valid_counts_respondents_2d",
     "CrCube.C02.numeric_valid_rowBase_respondents_2d",
     "CrCube.C02.numeric_valid_counts_respondents_1d",
+    "CrCube.C02.valid_counts_summary_range_respondents",
+    "CrCube.C02.valid_counts_summary_range_respondents_strand",
+    "CrCube.C02.valid_counts_summary_range_respondents_scalar",
+    "CrCube.C02.valid_counts_summary_range_none",
+    "CrCube.C02.valid_counts_summary_range_mr_counterexample",
 ]
 RULE = ("numeric arrays (alone / x cat-like / x mr / x cat x cat / x ca) and numeric measures over 1-3 apparent "
         "dimensions, with valid counts {u,w,uw} (and a few without); per-item missingness; min-base sizes 0-5; every "
